@@ -231,7 +231,11 @@ def check_graph(schema, files, main="a.conf", validator=False, schema_xml=None):
                     try:
                         ZConfig.loadConfigFile(vschema, f)
                     except ZConfig.ConfigurationError as e:
-                        expected_msgs.append(str(e) + "\n")
+                        try:
+                            expected_msgs.append(str(e) + "\n")
+                        except Exception as e2:  # noqa
+                            out.append(("configuration-error-cannot-be-printed:%s" % type(e).__name__, repr(e2)))
+                            internal = True
                     except Exception:  # noqa
                         internal = True
             if not internal:
